@@ -127,6 +127,9 @@ def run_item(item):
         viol += analyze_index(scen, r)
     out = {"widths": r["widths"], "violations": viol, "outcome": hashlib.sha256(outcome(scen, r).encode()).hexdigest()[:16],
            "steps": len(r["widths"])}
+    if item.get("kill") is not None:
+        # a kill point at which the victim is not alive (a job process that has not started yet / is already over) changes nothing
+        out["kill_effective"] = any(e[0] in ("KILL", "KILLJOB") for e in r["events"])
     if item.get("want_events"):
         out["events"] = [list(map(str, e)) for e in r["events"] if e[0] != "fs"][:400]
         out["chosen"] = r["chosen"]
@@ -226,7 +229,7 @@ class Search:
         for k in fr:
             self.completed.setdefault(scens[k[0]]["name"], {})[k[1] + (f"/window{window}" if window else "") + ({True: "/demote", "only": "/demote-only"}.get(demote, ""))] = done[k]
 
-    def explore_kills(self, scen, policy="FIFO", base_schedules=({},), restart_bound=0):
+    def explore_kills(self, scen, policy="FIFO", base_schedules=({},), restart_bound=0, demote=False):
         """Kill the first scheduler process before every scheduling step of each base schedule, then run the restart
         script; explores the continuation with <= restart_bound deviations after the kill point."""
         name = scen["name"]
@@ -237,6 +240,7 @@ class Search:
             outs = self.pool.map("engines.explore:run_item", items)
             self.executions += len(items) + 1
             frontier = []
+            ineffective_seen = False
             for it, o in zip(items, outs):
                 if "nondeterminism" in o:
                     raise HarnessError(f"nondeterminism in kill run {it['kill']} of {name}: {o['nondeterminism']}")
@@ -245,13 +249,21 @@ class Search:
                     if key == "HARNESS":
                         raise HarnessError(f"{name} kill {it['kill']}: {msg}")
                     self.violations.append((prop, key, msg, {"scen": scen, "policy": policy, "schedule": it["schedule"], "kill": it["kill"]}))
-                if restart_bound >= 1:
+                if restart_bound >= 1 and (o.get("kill_effective", True) or not ineffective_seen):
+                    # (all executions in which the kill found nothing to kill are the same execution: one representative)
+                    if not o.get("kill_effective", True):
+                        ineffective_seen = True
                     w = o["widths"]
                     start = max([it["kill"]["step"]] + [int(x) + 1 for x in it["schedule"]])
                     for i in range(start, len(w)):
-                        for alt in range(1, w[i]):
+                        for alt in range(1, w[i] if demote != "only" else 1):
                             s2 = dict(it["schedule"])
                             s2[i] = alt
+                            frontier.append({"scen": scen, "policy": policy, "schedule": s2, "kill": it["kill"], "props": self.props, "expect": w[: i + 1]})
+                        if demote and w[i] > 1:
+                            # the "long preemption" deviation after the kill (see explore_block)
+                            s2 = dict(it["schedule"])
+                            s2[i] = "D"
                             frontier.append({"scen": scen, "policy": policy, "schedule": s2, "kill": it["kill"], "props": self.props, "expect": w[: i + 1]})
             if frontier:
                 outs = self.pool.map("engines.explore:run_item", frontier)
@@ -262,7 +274,7 @@ class Search:
                     self.outcomes.setdefault(name, set()).add(o["outcome"])
                     for prop, key, msg in o["violations"]:
                         self.violations.append((prop, key, msg, {"scen": scen, "policy": policy, "schedule": it["schedule"], "kill": it["kill"]}))
-            self.completed.setdefault(name, {})[f"{policy}+kill"] = restart_bound
+            self.completed.setdefault(name, {})[f"{policy}+kill" + ({True: "/demote", "only": "/demote-only"}.get(demote, ""))] = restart_bound
 
     def states(self):
         res = self.pool.map_on("engines.explore:collect_states", [None] * self.pool.n, list(range(self.pool.n)))
